@@ -1,52 +1,76 @@
-import Hannibal.Monitor.Basic
+import Hannibal.Monitor.C04
 /-
   C17 — OwningAddr hands back the actor's final state exactly once.
+
+  `monC17`  : a join / consume yields the actor value only after the actor has terminated gracefully,
+              in its final state (after its last handler and its `stopped` callback: the digest is the
+              fold of everything handled), and at most once per actor.
+  `monC17n` : when `None` is allowed (the actor failed, or the value / the join slot was claimed before),
+              and that a join resolves only once the actor has terminated.
 -/
 namespace Hannibal
 
 structure C17St where
+  base : C04St               -- handle table / operation kinds, failure, stopped-finished, terminated
+  hlog : List Nat            -- fold of what the current value has handled
+  handedOut : Bool
+  deriving Repr, DecidableEq
+
+def joinOf (st : C17St) (o : Nat) : Bool :=
+  match lookup o st.base.hold.ops with
+  | some (k, _) => isJoinKind k
+  | none => false
+
+def bad17 (st : C17St) : Label → Bool
+  | .ret o (.some f) =>
+    joinOf st o &&
+      !(st.base.terminated && st.base.stoppedDone && !st.base.failure && !st.handedOut && f.stoppedSeen
+        && f.digest == st.hlog)
+  | _ => false
+
+def next17 (c : MonCtx) (st : C17St) (l : Label) : C17St :=
+  { base := next04 c st.base l
+    hlog := (match l with
+      | .cbBegin (.handle m) => st.hlog ++ [m]
+      | .cbBegin (.item k) => st.hlog ++ [200000 + k]
+      | .vnew _ => []
+      | _ => st.hlog)
+    handedOut := (match l with
+      | .ret o (.some _) => st.handedOut || joinOf st o
+      | _ => st.handedOut) }
+
+def monC17 (c : MonCtx) : Mon C17St where
+  init := { base := (monC04 c).init, hlog := [], handedOut := false }
+  step st l := if bad17 st l then none else some (next17 c st l)
+
+structure C17nSt where
   ops : List (Nat × OpKind)
-  hlog : List Nat
   terminated : Bool
-  graceful : Bool          -- `stopped` finished, nothing began since
   failure : Bool
   handedOut : Bool
   slotTaken : Bool         -- some join already claimed the join slot
   deriving Repr, DecidableEq
 
-def monC17 (c : MonCtx) : Mon C17St where
-  init := { ops := [], hlog := [], terminated := false, graceful := false, failure := false,
-            handedOut := false, slotTaken := false }
+def monC17n (c : MonCtx) : Mon C17nSt where
+  init := { ops := [], terminated := false, failure := false, handedOut := false, slotTaken := false }
   step st l :=
     match l with
     | .begin o _ k =>
       (match k with
        | .join | .consume => some { st with ops := (o, (if st.slotTaken then .ping else k)) :: st.ops, slotTaken := true }
        | _ => some st)
-    | .cbBegin cb =>
-      (match cb with
-       | .handle m => some { st with hlog := st.hlog ++ [m], graceful := false }
-       | .item k => some { st with hlog := st.hlog ++ [200000 + k], graceful := false }
-       | _ => some { st with graceful := false })
-    | .cbEnd .stopped true => some { st with graceful := true }
-    | .vnew _ => some { st with hlog := [] }
     | .ret o r =>
       (match lookup o st.ops with
        | none => some st
        | some k =>
          (match r with
-          | .some f =>
-            -- the value, once, after termination, in its final state (last handler + stopped)
-            if st.terminated && st.graceful && !st.failure && !st.handedOut && f.stoppedSeen
-               && f.digest == st.hlog && k != .ping
-            then some { st with handedOut := true } else none
+          | .some _ => if k == .ping then none else some { st with handedOut := true }
           | .none | .err .alreadyStopped =>
-            -- None: the actor failed, or the slot / value had been claimed before
+            -- None: the actor failed, or the slot / value had been claimed before; never while it still runs
             if k == .ping || (st.terminated && (st.failure || st.handedOut)) then some st else none
           | _ => some st))
     | l =>
-      let st := if l.isFailure || (match l with | .cbAbandon _ => c.cfg.failOnTimeout | _ => false)
-                then { st with failure := true } else st
+      let st := if failsActor c.cfg.failOnTimeout l then { st with failure := true } else st
       if l.terminates then some { st with terminated := true } else some st
 
 end Hannibal
